@@ -152,8 +152,12 @@ def _compile_seq(nfa, seq, flags, cur, wanted, alpha):
             # (?=[set]) / (?![set]) in front of an item that consumes a character: that character is taken from the restricted set.
             # Only this one-character form is modelled.
             m = _one_char_mask(av[1], flags, alpha)
-            if m is None or look is not None:
+            if m is None:
                 raise AnalysisError('unsupported regex construct: %s of more than one character' % ops)
+            if look is not None:
+                n = nfa.new()
+                nfa.mk[cur].append((('look', look[0], look[1]), n))
+                cur = n
             look = (m, ops == 'ASSERT')
             continue
         if look is not None:
@@ -173,7 +177,11 @@ def _compile_seq(nfa, seq, flags, cur, wanted, alpha):
                 rest = (op, (lo - 1, hi if hi == MAXREPEAT else hi - 1, sub))
                 cur = _compile_seq(nfa, [rest], flags, cur, wanted, alpha)
                 continue
-            raise AnalysisError('unsupported regex construct: look-ahead in front of %s' % ops)
+            # in front of anything else (an item that may be empty, a group): an edge that leaves a promise about the next character of
+            # the rest of the input, whoever consumes it
+            n = nfa.new()
+            nfa.mk[cur].append((('look', m, positive), n))
+            cur = n
         if ops in ('LITERAL', 'NOT_LITERAL', 'ANY', 'IN'):
             n = nfa.new()
             nfa.tr[cur].append((alpha.leaf((op, av), flags), n))
@@ -260,7 +268,9 @@ def _compile_seq(nfa, seq, flags, cur, wanted, alpha):
         else:
             raise AnalysisError('unsupported regex construct: %s' % ops)
     if look is not None:
-        raise AnalysisError('unsupported regex construct: look-ahead at the end of a sequence')
+        n = nfa.new()
+        nfa.mk[cur].append((('look', look[0], look[1]), n))
+        cur = n
     return cur
 
 
@@ -589,6 +599,11 @@ def _regex_lang(pattern, flags=0, mode='match', groups=(), markers=None, alpha=N
                 continue
             nxt = [(n, pr) for n in nfa.eps[q]]
             for mk, n in nfa.mk[q]:
+                if mk[0] == 'look':
+                    np = _meet(pr, ('A', mk[1] if mk[2] else alpha.full & ~mk[1], not mk[2]), 1 << NL)
+                    if np is not False:
+                        nxt.append((n, np))
+                    continue
                 if mk[0] != 'at':
                     continue
                 a = mk[1]
@@ -600,11 +615,11 @@ def _regex_lang(pattern, flags=0, mode='match', groups=(), markers=None, alpha=N
                         nxt.append((n, pr))
                 elif a == 'AT_END':
                     want = 'L' if ML else 'E'
-                    np = _meet(pr, want)
+                    np = _meet(pr, want, 1 << NL)
                     if np is not False:
                         nxt.append((n, np))
                 elif a == 'AT_END_STRING':
-                    np = _meet(pr, 'Z')
+                    np = _meet(pr, 'Z', 1 << NL)
                     if np is not False:
                         nxt.append((n, np))
                 else:
@@ -674,6 +689,12 @@ def _regex_lang(pattern, flags=0, mode='match', groups=(), markers=None, alpha=N
                 if q == accq and mode != 'fullmatch':
                     out.add((accq, 'T'))
                 continue
+            if isinstance(pr, tuple):
+                # ('A', allowed, end): a look-ahead's promise about this character
+                if not (pr[1] >> sym & 1):
+                    continue
+                if q == accq and mode != 'fullmatch':
+                    out.add((accq, 'T'))
             for (mask, n) in nfa.tr[q]:
                 if mask >> sym & 1:
                     out.add((n, None))
@@ -689,22 +710,42 @@ def _regex_lang(pattern, flags=0, mode='match', groups=(), markers=None, alpha=N
 
     def accepting(S):
         for (q, pr) in S:
-            if q == accq:
+            if q == accq and not (isinstance(pr, tuple) and not pr[2]):
                 return True
         return False
 
     masks = {m for trs in nfa.tr for (m, _n) in trs}
+    masks |= {mk[1] for mks in nfa.mk for (mk, _n) in mks if mk[0] == 'look'}
     masks.add(1 << NL)
     classes = split_classes([alpha.full], masks)
     return _determinise(alpha, markers, start, step, accepting, classes)
 
 
-def _meet(pr, want):
+def _meet(pr, want, nl=0):
     """combine an existing promise about the rest of the input with a new one"""
     if pr is None:
         return want
     if pr == want:
         return pr
+    if isinstance(pr, tuple) or isinstance(want, tuple):
+        # ('A', allowed, end): the rest is empty (if end) or begins with a character of `allowed`
+        if isinstance(pr, tuple) and isinstance(want, tuple):
+            a, e = pr[1] & want[1], pr[2] and want[2]
+            return ('A', a, e) if (a or e) else False
+        look, other = (pr, want) if isinstance(pr, tuple) else (want, pr)
+        _a, allowed, end = look
+        newline = bool(allowed & nl)
+        if other == 'Z':                      # rest == ''
+            return 'Z' if end else False
+        if other in ('E', 'L'):               # rest in {'', '\n'}  /  rest == '' or begins with '\n'
+            if end and newline:
+                return other
+            if end:
+                return 'Z'
+            if not newline:
+                return False
+            raise AnalysisError('unsupported regex construct: a look-ahead that demands the newline in front of the end of the line')
+        return False
     order = {'Z': 0, 'E': 1, 'L': 2}
     if pr in order and want in order:
         return pr if order[pr] < order[want] else want
